@@ -792,6 +792,19 @@ WITNESSES = {
                       'tolerance'),
     'control': dict(A=[[2, 1], [1, 3]], b=[[3], [5]], expect=0,
                     what='control: diagonally dominant 2x2'),
+    # badly scaled but regular: the control with its rows scaled by 1e-6 and
+    # 1e7 (a small row above a large one); every pivot is far above the
+    # tolerance, the system must be solved
+    'scaled': dict(A=[[Fraction(2, 10**6), Fraction(1, 10**6)],
+                      [10**7, 3 * 10**7]],
+                   b=[[Fraction(3, 10**6)], [5 * 10**7]], expect=0,
+                   what='rows of the control scaled by 1e-6 and 1e7'),
+    'scaled3': dict(A=[[Fraction(4, 10**7), Fraction(1, 10**7),
+                        Fraction(1, 10**7)], [1, 5, 1],
+                       [10**7, 2 * 10**7, 6 * 10**7]],
+                    b=[[Fraction(6, 10**7)], [7], [9 * 10**7]], expect=0,
+                    what='diagonally dominant 3x3, rows scaled by 1e-7, 1, '
+                         '1e7'),
 }
 
 
